@@ -315,7 +315,7 @@ func opD3x(level, vec string, nilRecv bool, withFlags bool) string {
 			} else {
 				out += " q2=0"
 			}
-			out += " vq=" + viewsSame(level, d, d2)
+			out += " vq=" + viewsSame(level, d, d2) + " fq=" + fieldsSame(d, d2)
 			if withFlags && r != nil && err == nil {
 				out += flags3(level, d, vec)
 			}
@@ -350,7 +350,7 @@ func opD3x(level, vec string, nilRecv bool, withFlags bool) string {
 			} else {
 				out += " q2=0"
 			}
-			out += " vq=" + viewsSame(level, d, d2)
+			out += " vq=" + viewsSame(level, d, d2) + " fq=" + fieldsSame(d, d2)
 			if withFlags && r != nil && err == nil {
 				out += flags3(level, d, vec)
 			}
@@ -385,7 +385,7 @@ func opD3x(level, vec string, nilRecv bool, withFlags bool) string {
 			} else {
 				out += " q2=0"
 			}
-			out += " vq=" + viewsSame(level, d, d2)
+			out += " vq=" + viewsSame(level, d, d2) + " fq=" + fieldsSame(d, d2)
 			if withFlags && r != nil && err == nil {
 				out += flags3(level, d, vec)
 			}
@@ -428,7 +428,7 @@ func opD2x(level, vec string, nilRecv bool, withFlags bool) string {
 			} else {
 				out += " q2=0"
 			}
-			out += " vq=" + viewsSame(level, d, d2)
+			out += " vq=" + viewsSame(level, d, d2) + " fq=" + fieldsSame(d, d2)
 			if withFlags && r != nil && err == nil {
 				out += flags2(level, d, vec)
 			}
@@ -463,7 +463,7 @@ func opD2x(level, vec string, nilRecv bool, withFlags bool) string {
 			} else {
 				out += " q2=0"
 			}
-			out += " vq=" + viewsSame(level, d, d2)
+			out += " vq=" + viewsSame(level, d, d2) + " fq=" + fieldsSame(d, d2)
 			if withFlags && r != nil && err == nil {
 				out += flags2(level, d, vec)
 			}
@@ -498,7 +498,7 @@ func opD2x(level, vec string, nilRecv bool, withFlags bool) string {
 			} else {
 				out += " q2=0"
 			}
-			out += " vq=" + viewsSame(level, d, d2)
+			out += " vq=" + viewsSame(level, d, d2) + " fq=" + fieldsSame(d, d2)
 			if withFlags && r != nil && err == nil {
 				out += flags2(level, d, vec)
 			}
@@ -551,6 +551,16 @@ func nth(csv string, i int) string {
 
 // viewsSame: after every query of the object (the first dump), do the lower-level views still give
 // the same score, severity and encoding (C14: the views must not depend on what was queried before)
+// fieldsSame: are the metric fields (integers and printed codes) and the version read after all queries have run
+// the ones read before any of them (C09: the fields are those written in the vector, whatever was asked meanwhile)
+func fieldsSame(d, d2 string) string {
+	a, b := kvOf(d), kvOf(d2)
+	if a["f"] == b["f"] && a["fc"] == b["fc"] && a["v"] == b["v"] {
+		return "1"
+	}
+	return "0"
+}
+
 func viewsSame(level, d, d2 string) string {
 	a, b := kvOf(d), kvOf(d2)
 	L := lvlIdx(level)
@@ -591,7 +601,7 @@ func flagsGeneric(level, d, vec string, dec func(level, vec string, nilRecv bool
 	encL := strings.SplitN(nth(m["enc"], L), "|", 2)[0]
 	rt := "0"
 	re := dec(level, unhx(encL), false)
-	if strings.HasPrefix(re, "r=1 e=- ") && dropKey(dropKey(dropKey(strings.TrimPrefix(re, "r=1 e=- "), "n"), "q2"), "vq") == dropKey(d, "n") {
+	if strings.HasPrefix(re, "r=1 e=- ") && dropKey(dropKey(dropKey(dropKey(strings.TrimPrefix(re, "r=1 e=- "), "n"), "q2"), "vq"), "fq") == dropKey(d, "n") {
 		rt = "1"
 	}
 	pv := ""
